@@ -183,7 +183,10 @@ def drive_env(name, tier, seed, hist_file=None):
 
     pre_obs_holder = [None]
 
+    over = [False]     # the episode of the adapter at hand has ended (terminated or truncated) and was not reset since
+
     def gym_reset(seed_arg=None):
+        over[0] = False
         if seed_arg is not None:
             kbase = jax.random.PRNGKey(seed_arg)  # what the documented schedule prescribes after seeding
         else:
@@ -228,6 +231,7 @@ def drive_env(name, tier, seed, hist_file=None):
                            "lv": [leaf_summ(p, a_) for p, a_ in dict_leaves(obs)],
                            "gym_contains": bool(g.observation_space.contains(obs))})
             if term or trunc:
+                over[0] = True       # Gym contract: no further step before the next reset
                 return
 
     # call history: reset, steps, reset, reset, steps, seed(s1) again, reset (reproduces), reset(seed=s2), steps, ...
@@ -272,7 +276,7 @@ def drive_env(name, tier, seed, hist_file=None):
                                    "prng": keyd(jax.random.PRNGKey(seedmap[k])), "key_after": keyd(g._key)})
                 elif op == "reset":
                     gym_reset()
-                elif op == "step" and g._state is not None:
+                elif op == "step" and g._state is not None and not over[0]:
                     gym_steps(1)
 
     # ---- dm_env adapter ----
